@@ -49,16 +49,18 @@ theorem C11_endpoints_any_binding (eps : List (Endpoint α)) (ep : Endpoint α) 
   · intro h; exact ⟨ep.binding, ⟨ep, h, rfl⟩, h, rfl⟩
 
 theorem mem_extractCerts {use c : α} {rs : List (Role α)} :
-    c ∈ extractCerts use rs ↔ ∃ r ∈ rs, ∃ kd ∈ r.keys, kd.cert = c ∧ (kd.use = none ∨ kd.use = some use) := by
-  simp only [extractCerts, List.mem_flatMap, List.mem_map, List.mem_filter, Bool.or_eq_true, decide_eq_true_eq]
+    c ∈ extractCerts use rs ↔ ∃ r ∈ rs, ∃ kd ∈ r.keys, kd.cert = c ∧ kd.nocert = false ∧ (kd.use = none ∨ kd.use = some use) := by
+  simp only [extractCerts, List.mem_flatMap, List.mem_map, List.mem_filter, Bool.or_eq_true, decide_eq_true_eq,
+    Bool.and_eq_true, Bool.not_eq_true']
   constructor
   · rintro ⟨r, hr, kd, ⟨hkd, hu⟩, hc⟩; exact ⟨r, hr, kd, hkd, hc, hu⟩
   · rintro ⟨r, hr, kd, hkd, hc, hu⟩; exact ⟨r, hr, kd, ⟨hkd, hu⟩, hc⟩
 
 /-- Certificates by declared use: exactly the certificates of the key descriptors of the requested
-    descriptor kind whose `use` is the requested one or absent. -/
+    descriptor kind whose `use` is the requested one or absent; a key descriptor without a usable
+    certificate (none, empty, blank) contributes nothing. -/
 theorem C11_certs_exact (e : Ent α) (k : Kind) (use : α) (l : List α) (h : certsOf e (some k) use = some l) (c : α) :
-    c ∈ l ↔ ∃ r ∈ e.roles, r.kind = k ∧ ∃ kd ∈ r.keys, kd.cert = c ∧ (kd.use = none ∨ kd.use = some use) := by
+    c ∈ l ↔ ∃ r ∈ e.roles, r.kind = k ∧ ∃ kd ∈ r.keys, kd.cert = c ∧ kd.nocert = false ∧ (kd.use = none ∨ kd.use = some use) := by
   unfold certsOf at h
   simp only at h
   split at h
@@ -72,7 +74,7 @@ theorem C11_certs_exact (e : Ent α) (k : Kind) (use : α) (l : List α) (h : ce
 /-- `certs(…, "any", use)`: the same over every role descriptor (the affiliation descriptor is not consulted). -/
 theorem C11_certs_any_exact (e : Ent α) (use : α) (c : α) :
     ∃ l, certsOf e none use = some l ∧
-      (c ∈ l ↔ ∃ r ∈ e.roles, r.kind ≠ .affiliation ∧ ∃ kd ∈ r.keys, kd.cert = c ∧ (kd.use = none ∨ kd.use = some use)) := by
+      (c ∈ l ↔ ∃ r ∈ e.roles, r.kind ≠ .affiliation ∧ ∃ kd ∈ r.keys, kd.cert = c ∧ kd.nocert = false ∧ (kd.use = none ∨ kd.use = some use)) := by
   refine ⟨_, rfl, ?_⟩
   simp only [List.mem_flatMap, mem_extractCerts, mem_rolesOf]
   constructor
@@ -206,10 +208,11 @@ theorem C11_too_old_document_refused (now : Int) (p2 : α) (m : EntMap α) (d : 
   unfold parseDoc
   simp [hg, expired, ht, hlt]
 
-/-- What a successful load of a (non-MDQ) source means. -/
+/-- What a successful load of a (non-MDQ) source means (`parseSrc` = `parseDoc` for a source without
+    a filter, `parseDocF` with the filter otherwise: `C11_filter_*` below). -/
 theorem C11_load_exact (pol : Policy) (p2 : α) (now : Int) (sp : SrcSpec α) (s : Source α)
     (h : loadSource pol p2 now sp = .ok s) (hk : sp.kind ≠ .mdq) :
-    ∃ d, sp.fetch = .doc d ∧ parseDoc sp.chk now p2 [] d = .ok s.entities ∧
+    ∃ d, sp.fetch = .doc d ∧ parseSrc sp now p2 d = .ok s.entities ∧
       checkSig pol sp.kind (effCert sp.kind sp.cert) d.sig = true ∧
       s.key = sp.key ∧ s.kind = sp.kind ∧ s.cert = sp.cert := by
   unfold loadSource at h
@@ -223,7 +226,7 @@ theorem C11_load_exact (pol : Policy) (p2 : α) (now : Int) (sp : SrcSpec α) (s
     | doc d =>
       rw [hf] at h
       simp only at h
-      cases hp : parseDoc sp.chk now p2 [] d with
+      cases hp : parseSrc sp now p2 d with
       | error _ => rw [hp] at h; cases h
       | ok m =>
         rw [hp] at h
@@ -256,6 +259,141 @@ theorem C11_bad_signature_refused (pol : Policy) (p2 : α) (now : Int) (sp : Src
     rw [hc] at hsig
     unfold checkSig at hsig
     rcases hs with hs | hs <;> simp [hs] at hsig
+
+
+/-! ## B2. A source that was given the store's `filter` (`MetadataStore(filter=…)`)
+
+The statements about `parseDocF` hold for EVERY function `g` from descriptors to optional descriptors
+(whatever the callable does); `applyFilt` is the family the correspondence run instantiates. -/
+
+/-- Soundness with a filter: every entry a source serves after reading a document is the filter's
+    ANSWER on an entity of that document with that entityID (restricted to its SAML 2.0 descriptors),
+    current when validity checking is on.  In particular nothing the filter refuses is served, and what
+    it rewrites is served as rewritten, never in the original form. -/
+theorem C11_filter_sound (g : Ent α → Option (Ent α)) (chk : Bool) (now : Int) (p2 : α) (d : Doc α) (m : EntMap α)
+    (h : parseDocF g chk now p2 [] d = .ok m) (id : α) (e' : Ent α) (hm : (id, e') ∈ m) :
+    ∃ e ∈ d.entities, e.id = id ∧ (∃ d0, prepEnt p2 e = some d0 ∧ g d0 = some e') ∧
+      (chk = true → expired now e.validUntil = false) := by
+  rcases mem_parseDocF h hm with h0 | ⟨e, he, hid, hs, hexp⟩
+  · cases h0
+  · refine ⟨e, he, hid.symm, ?_, hexp⟩
+    unfold servedF at hs
+    cases hp : prepEnt p2 e with
+    | none => rw [hp] at hs; cases hs
+    | some d0 => rw [hp] at hs; exact ⟨d0, rfl, hs⟩
+
+/-- What the filter drops is not served: if the filter refuses every occurrence of an entityID in the
+    document, the source does not list that entityID (neither `keys()` nor any lookup finds it). -/
+theorem C11_filter_dropped_not_served (g : Ent α → Option (Ent α)) (chk : Bool) (now : Int) (p2 : α) (d : Doc α)
+    (m : EntMap α) (h : parseDocF g chk now p2 [] d = .ok m) (id : α)
+    (hdrop : ∀ e ∈ d.entities, e.id = id → ∀ d0, prepEnt p2 e = some d0 → g d0 = none) :
+    has m id = false ∧ lookup m id = none := by
+  have hh : has m id = false := by
+    cases hc : has m id with
+    | false => rfl
+    | true =>
+      rw [has_eq_isSome] at hc
+      cases hl : lookup m id with
+      | none => rw [hl] at hc; cases hc
+      | some e' =>
+        obtain ⟨e, he, hid, ⟨d0, hp, hg⟩, _⟩ := C11_filter_sound g chk now p2 d m h id e' (lookup_mem hl)
+        rw [hdrop e he hid d0 hp] at hg; cases hg
+  exact ⟨hh, lookup_none_of_not_has hh⟩
+
+/-- Completeness with a filter: an entity the document contains that is current, supports SAML 2.0
+    and is kept by the filter has its entityID served — a refused EARLIER occurrence of the same
+    entityID does not stand in its way (the code sets `flag = 0` before anything is stored). -/
+theorem C11_filter_complete (g : Ent α → Option (Ent α)) (chk : Bool) (now : Int) (p2 : α) (d : Doc α) (m : EntMap α)
+    (h : parseDocF g chk now p2 [] d = .ok m) (e : Ent α) (he : e ∈ docEntities d)
+    (hel : eligibleF g chk now p2 e = true) : has m e.id = true := by
+  rw [has_parseDocF h]
+  simp only [Bool.or_eq_true, List.any_eq_true]
+  right
+  exact ⟨e, he, by simp [hel]⟩
+
+/-- … and conversely an entityID is listed only if some such entity is in the document. -/
+theorem C11_filter_listed_iff (g : Ent α → Option (Ent α)) (chk : Bool) (now : Int) (p2 : α) (d : Doc α) (m : EntMap α)
+    (h : parseDocF g chk now p2 [] d = .ok m) (id : α) :
+    has m id = true ↔ ∃ e ∈ docEntities d, e.id = id ∧ eligibleF g chk now p2 e = true := by
+  rw [has_parseDocF h]
+  have : has ([] : EntMap α) id = false := rfl
+  simp [this]
+
+/-- With a filter, too, an entityID is served at most once per source. -/
+theorem C11_filter_served_once (g : Ent α → Option (Ent α)) (chk : Bool) (now : Int) (p2 : α) (d : Doc α) (m : EntMap α)
+    (h : parseDocF g chk now p2 [] d = .ok m) : (m.map (·.1)).Nodup :=
+  parseDocF_nodup h (by simp)
+
+/-- A filter that keeps every descriptor unchanged is no filter: all theorems of section B apply. -/
+theorem C11_filter_identity (chk : Bool) (now : Int) (p2 : α) (m : EntMap α) (d : Doc α) :
+    parseDocF some chk now p2 m d = parseDoc chk now p2 m d :=
+  parseDocF_some chk now p2 m d
+
+/-- The filters of the correspondence run, exactly: an entity is kept iff its entityID is not refused
+    and it carries the demanded entity-attribute value (if one is demanded); what is kept is the
+    entity minus the descriptors of the stripped kinds, everything else unchanged. -/
+theorem C11_filter_family_exact (f : Filt α) (e e' : Ent α) :
+    applyFilt f e = some e' ↔
+      e.id ∉ f.drop ∧ (∀ nv, f.need = some nv → ∃ a ∈ e.attrs, a.1 = nv.1 ∧ nv.2 ∈ a.2) ∧
+      e' = { e with roles := e.roles.filter (fun r => !f.strip.contains r.kind) } := by
+  constructor
+  · intro h
+    unfold applyFilt at h
+    split at h
+    · cases h
+    · next hd =>
+      have hd' : e.id ∉ f.drop := fun hm => hd (List.contains_iff_mem.mpr hm)
+      split at h
+      · next hn =>
+        cases h
+        exact ⟨hd', (fun nv h0 => by rw [hn] at h0; cases h0), rfl⟩
+      · next nv hn =>
+        split at h
+        · next ha =>
+          cases h
+          refine ⟨hd', ?_, rfl⟩
+          intro nv' hnv'
+          rw [hn] at hnv'
+          cases hnv'
+          simp only [List.any_eq_true, Bool.and_eq_true, decide_eq_true_eq, List.contains_iff_mem] at ha
+          exact ha
+        · cases h
+  · rintro ⟨h1, h2, h3⟩
+    unfold applyFilt
+    have hc : f.drop.contains e.id = false := by
+      cases hcc : f.drop.contains e.id with
+      | false => rfl
+      | true => exact absurd (List.contains_iff_mem.mp hcc) h1
+    simp only [hc, Bool.false_eq_true, ↓reduceIte]
+    cases hn : f.need with
+    | none => simp only [h3]; rfl
+    | some nv =>
+      obtain ⟨a, ham, h3', h4⟩ := h2 nv hn
+      have ha : (e.attrs.any (fun a => decide (a.1 = nv.1) && a.2.contains nv.2)) = true := by
+        simp only [List.any_eq_true, Bool.and_eq_true, decide_eq_true_eq, List.contains_iff_mem]
+        exact ⟨a, ham, h3', h4⟩
+      simp only [ha, ↓reduceIte, h3]; rfl
+
+/-- At the level of a loaded source, any policy (hence true of the code): every entry of a (non-MDQ)
+    source that was constructed with filter `f` is `f`'s answer on an entity of the document read,
+    restricted to its SAML 2.0 descriptors; an entityID `f` refuses is not listed. -/
+theorem C11_filtered_load_exact (pol : Policy) (p2 : α) (now : Int) (sp : SrcSpec α) (s : Source α) (f : Filt α)
+    (h : loadSource pol p2 now sp = .ok s) (hk : sp.kind ≠ .mdq) (hf : sp.filt = some f) :
+    ∃ d, sp.fetch = .doc d ∧
+      (∀ id e', (id, e') ∈ s.entities →
+        ∃ e ∈ d.entities, e.id = id ∧ (∃ d0, prepEnt p2 e = some d0 ∧ applyFilt f d0 = some e') ∧
+          (sp.chk = true → expired now e.validUntil = false)) ∧
+      (∀ id ∈ f.drop, has s.entities id = false) := by
+  obtain ⟨d, hfd, hp, _⟩ := C11_load_exact pol p2 now sp s h hk
+  have hp' : parseDocF (applyFilt f) sp.chk now p2 [] d = .ok s.entities := by
+    unfold parseSrc at hp; rw [hf] at hp; exact hp
+  refine ⟨d, hfd, fun id e' hm => C11_filter_sound _ _ _ _ _ _ hp' id e' hm, ?_⟩
+  intro id hid
+  refine (C11_filter_dropped_not_served _ _ _ _ _ _ hp' id ?_).1
+  intro e he heid d0 hd0
+  have : d0.id = e.id := by rw [(prepEnt_some hd0).1]
+  unfold applyFilt
+  simp [this, heid, hid]
 
 
 /-! ## C. Several sources: the first configured one wins -/
@@ -686,10 +824,12 @@ def docsOfStep (s : Step α) : List (Doc α) :=
 /-- The entry `id ↦ e'` of source `src` is what authentic, current metadata says: some step of the
     history handed out a document that (if the source has a certificate) carries a signature that
     verifies, and that contains an entity with this entityID, not past its validUntil at that moment
-    (validity checking on), whose SAML 2.0 descriptors are exactly `e'`. -/
+    (validity checking on), whose SAML 2.0 descriptors are exactly `e'` — or, for a source loaded in
+    that step with the store's `filter`, `e'` is what the filter made of them. -/
 def Justified (p2 : α) (h : List (Step α)) (src : Source α) (id : α) (e' : Ent α) : Prop :=
   ∃ s ∈ h, ∃ d ∈ docsOfStep s, (effCert src.kind src.cert = true → d.sig = .valid) ∧
-    ∃ e ∈ d.entities, e.id = id ∧ prepEnt p2 e = some e' ∧
+    ∃ e ∈ d.entities, e.id = id ∧
+      (prepEnt p2 e = some e' ∨ ∃ sp ∈ specsOf s.op, ∃ f, sp.filt = some f ∧ servedF (applyFilt f) p2 e = some e') ∧
       (src.chk = true → expired s.now e.validUntil = false)
 
 def SrcOk (p2 : α) (h : List (Step α)) (src : Source α) : Prop :=
@@ -760,13 +900,20 @@ theorem loadSource_ok {p2 : α} {s : Step α} {sp : SrcSpec α} (hsp : sp ∈ sp
     (h : loadSource Policy.ideal p2 s.now sp = .ok src) : SrcOk p2 [s] src := by
   unfold loadSource at h
   simp only at h
-  have main : ∀ d, sp.fetch = .doc d → ∀ m, parseDoc sp.chk s.now p2 [] d = .ok m →
+  have main : ∀ d, sp.fetch = .doc d → ∀ m, parseSrc sp s.now p2 d = .ok m →
       checkSig Policy.ideal sp.kind (effCert sp.kind sp.cert) d.sig = true →
       SrcOk p2 [s] { key := sp.key, kind := sp.kind, cert := sp.cert, chk := sp.chk, fresh := sp.fresh, entities := m, expiry := [] } := by
     intro d hf m hp hc p hpm
-    rcases mem_parseDoc hp hpm with h0 | ⟨e, he, hid, hprep, hexp⟩
+    rw [parseSrc_eq] at hp
+    rcases mem_parseDocF hp hpm with h0 | ⟨e, he, hid, hprep, hexp⟩
     · cases h0
-    · refine ⟨s, List.mem_singleton.mpr rfl, d, ?_, fun hcert => checkSig_ideal_valid hc hcert, e, he, hid.symm, hprep, hexp⟩
+    · have hvia : prepEnt p2 e = some p.2 ∨
+          ∃ sp' ∈ specsOf s.op, ∃ f, sp'.filt = some f ∧ servedF (applyFilt f) p2 e = some p.2 := by
+        unfold specFilt at hprep
+        cases hfl : sp.filt with
+        | none => rw [hfl] at hprep; left; rw [← servedF_some]; exact hprep
+        | some f => rw [hfl] at hprep; right; exact ⟨sp, hsp, f, hfl, hprep⟩
+      refine ⟨s, List.mem_singleton.mpr rfl, d, ?_, fun hcert => checkSig_ideal_valid hc hcert, e, he, hid.symm, hvia, hexp⟩
       unfold docsOfStep
       apply List.mem_append_left
       exact List.mem_filterMap.mpr ⟨sp, hsp, by rw [hf]; rfl⟩
@@ -780,7 +927,7 @@ theorem loadSource_ok {p2 : α} {s : Step α} {sp : SrcSpec α} (hsp : sp ∈ sp
     | doc d =>
       rw [hf] at h
       simp only at h
-      cases hp : parseDoc sp.chk s.now p2 [] d with
+      cases hp : parseSrc sp s.now p2 d with
       | error _ => rw [hp] at h; cases h
       | ok m =>
         rw [hp] at h
@@ -881,7 +1028,7 @@ theorem srcGet_ok {c : Consts α} {h : List (Step α)} {s : Step α} (hs : s ∈
     rcases h5 p hp with h0 | ⟨d, hd, hsig, e, he, hid, hprep, hexp⟩
     · obtain ⟨s0, hs0, d0, hd0, hsig0, rest⟩ := hok p h0
       exact ⟨s0, hs0, d0, hd0, by rw [h1, h2]; exact hsig0, by rw [h3]; exact rest⟩
-    · refine ⟨s, hs, d, ?_, ?_, e, he, hid.symm, hprep, by rw [h3]; exact hexp⟩
+    · refine ⟨s, hs, d, ?_, ?_, e, he, hid.symm, Or.inl hprep, by rw [h3]; exact hexp⟩
       · unfold docsOfStep
         apply List.mem_append_right
         rcases mdqFn_mem s.mdq src.key eid with hun | ⟨r, hr, _, _, hf⟩
@@ -1270,6 +1417,9 @@ example : selectBinding [({ svc := 10, binding := 20, location := 50 } : Endpoin
     = [{ svc := 10, binding := 21, location := 51 }] := by decide
 example : certsOf idpN (some .idpsso) 99 = some [30] := by decide
 example : certsOf idpN (some .spsso) 99 = none := by decide
+-- a key descriptor without a usable certificate contributes nothing
+example : certsOf (entN 7 1 [{ (roleN .idpsso [2] 50) with keys := [{ use := none, cert := 31, nocert := true }, { use := some 99, cert := 32 }] }])
+    (some .idpsso) 99 = some [32] := by decide
 example : catsOf 3 idpN = [40] := by decide
 def spRoleN : Role Nat :=
   { kind := .spsso, protocols := [2], endpoints := [], keys := [],
@@ -1336,5 +1486,22 @@ example : (run Policy.code cN [] hF11).1 = [.done true, .raised, .strs []] := by
 example : (run ⟨true, true⟩ cN [] hF11).1 = [.done true, .raised, .strs [7]] := by decide
 example : has (mdxGet Policy.code 2 0 (.doc (docN .wrongKey idpN)) mdqSrcN 7).2.entities 7 = false ∧
     has (mdxGet ⟨true, true⟩ 2 0 (.doc (docN .wrongKey idpN)) mdqSrcN 7).2.entities 7 = true := by decide
+
+-- B2: a filter that refuses entityID 8, demands category 40 and strips SPSSODescriptors
+def filtN : Filt Nat := { drop := [8], need := some (3, 40), strip := [.spsso] }
+def keptN : Ent Nat := entN 9 95 [roleN .idpsso [2] 56, roleN .spsso [2] 57]
+def refusedN : Ent Nat := entN 8 96 [roleN .idpsso [2] 58]
+def noCatN : Ent Nat := { (entN 9 97 [roleN .idpsso [2] 59]) with attrs := [] }
+def groupFN : Doc Nat := { group := true, validUntil := none, sig := .unsigned, entities := [refusedN, noCatN, keptN] }
+example : applyFilt filtN keptN = some (entN 9 95 [roleN .idpsso [2] 56]) ∧ applyFilt filtN refusedN = none ∧
+    applyFilt filtN noCatN = none := by decide
+-- the refused first occurrence of entityID 9 does not stand in the way of the later one that is kept
+example : ∃ m, parseDocF (applyFilt filtN) true 10 2 [] groupFN = .ok m ∧ m = [(9, entN 9 95 [roleN .idpsso [2] 56])] := ⟨_, rfl, by decide⟩
+example : ∃ m, parseDoc true 10 2 [] groupFN = .ok m ∧ m = [(8, refusedN), (9, noCatN)] := ⟨_, rfl, by decide⟩
+example : eligibleF (applyFilt filtN) true 10 2 keptN = true ∧ eligibleF (applyFilt filtN) true 10 2 refusedN = false := by decide
+def filtSpecN : SrcSpec Nat := { (specN .file false (.doc groupFN)) with filt := some filtN }
+example : ∃ s, loadSource Policy.code 2 10 filtSpecN = .ok s ∧ s.entities.map (·.1) = [9] := ⟨_, rfl, by decide⟩
+example : (run Policy.code cN [] [{ now := 10, mdq := [], op := .imp [filtSpecN] }, qStep 10 [] (.get 8), qStep 10 [] .keys,
+    qStep 10 [] (.withDesc .spsso)]).1 = [.done true, .missing, .strs [9], .ents []] := by decide
 
 end C11
